@@ -7,7 +7,7 @@ cd "$(dirname "$0")/.." || exit 2
 (cd lean && lake build >/dev/null 2>&1)
 mkdir -p targets_out
 seeds="$@"
-[ -z "$seeds" ] && seeds=$(for d in seeded/C*; do grep -q '"status": "retired"' $d/meta.json || basename $d; done)
+[ -z "$seeds" ] && seeds=$(for d in seeded/C*; do grep -qE '"status": "(retired|stale)"' $d/meta.json || basename $d; done)
 LANES=${LANES:-4}
 one() {
   p=${1:0:3}
